@@ -451,7 +451,12 @@ func writeComputedFieldExpression(w *formatting.IndentedWriter, expression dsl.E
 				case dsl.BinaryOpMul:
 					w.WriteString("*")
 				case dsl.BinaryOpDiv:
-					w.WriteString("//")
+					// floor division only for integers; floating-point and complex operands divide exactly
+					if kind, ok := dsl.GetKindIfPrimitive(t.ResolvedType); ok && kind == dsl.PrimitiveKindInteger {
+						w.WriteString("//")
+					} else {
+						w.WriteString("/")
+					}
 				case dsl.BinaryOpPow:
 					w.WriteString("**")
 				default:
